@@ -4,6 +4,9 @@ Property theorems only (model: Model.lean; proofs: Lemmas / Invariant / Converge
 `FactsC14.lean` is regenerated from cluster/sync.go and cluster/rpchandlers.go on every run.
 -/
 import SemaModel.C14.Witness
+import SemaModel.C14.Msgs
+import SemaModel.C14.ConcTerm
+import SemaModel.C14.ConcMsgs
 import SemaModel.Generated.FactsC14
 namespace Sema.C14
 
@@ -41,6 +44,27 @@ theorem C14_chunks (cs : Nat) (hcs : 0 < cs) (c : Content) :
 example : messages 2 [1, 2, 3, 4] = [(0, [1, 2]), (1, [3, 4]), (2, [])] := by decide
 example : messages 2 [1, 2, 3] = [(0, [1, 2]), (1, [3]), (2, [])] := by decide
 example : messages 2 [] = [(0, [])] := by decide
+
+/-- `messages` is what the transition system sends: along the failure-free `sendShardFile n k` of a
+file `c` — the label sequence `sendLabels` (data chunks `fchunk`, the empty chunk `ffinal`, the removal),
+which is what the sequential program `sendFrom` executes and what a phase-2 goroutine of the
+concurrent program executes for the shard at the head of its list (`fnext`) — node `n` calls
+`RPCSendShard` for shard `k` with exactly `messages cs c` (`runMsgs`: the `(ChunkIndex, ChunkData)` of
+every `fchunk` / `ffinal` of `n` for `k` along the run, read off the states the labels are applied in).
+Hypotheses: the sender holds `c`, is not the owner, both run, no transfer of `k` is in flight. -/
+theorem C14_sender_emits_messages (cfg : Cfg N K) (htr : cfg.trunc0 = true) (n : N) (k : K) (c : Content)
+    (hne : n ≠ cfg.fowner k) (hus : cfg.up n = true) (huo : cfg.up (cfg.fowner k) = true) (s : St N K)
+    (hf : s.files n k = some c) (hidle : s.fph n k = .idle) (hok : s.failed n = false) :
+    sendFrom cfg noFault n k (chunks cfg.cs c).length 0 s = run cfg (sendLabels n k (chunks cfg.cs c).length) s ∧
+    runMsgs cfg n k (sendLabels n k (chunks cfg.cs c).length) s = messages cfg.cs c :=
+  ⟨sendFrom_eq_run cfg n k _ 0 s,
+   runMsgs_send cfg htr n k c hne hus huo _ 0 s (by omega)
+     ⟨hf, by rw [hidle]; rfl, fun h => absurd h (Nat.lt_irrefl 0), hok⟩⟩
+
+/-- non-vacuity: shard 7 = `[1,2,3]` from node 0 to node 1, chunk size 2 -/
+example : runMsgs (wCfg true) 0 7 (sendLabels 0 7 2) wS0 = [(0, [1, 2]), (1, [3]), (2, [])] := by decide
+example : runMsgs (wCfg true) 0 7 (sendLabels 0 7 (chunks 2 [1, 2, 3]).length) wS0 = messages 2 [1, 2, 3] :=
+  (C14_sender_emits_messages (wCfg true) rfl 0 7 [1, 2, 3] (by decide) rfl rfl wS0 rfl rfl rfl).2
 
 /-! ## no loss -/
 
@@ -140,6 +164,226 @@ theorem C14_converges_repo (owner fowner : K → N) (sum : Content → Nat)
     (hs : SumOK (repoCfg owner fowner sum)) : Converges (repoCfg owner fowner sum) :=
   C14_converges _ hs (by show 0 < Gen.C14.chunkSize; decide) (by show Gen.C14.truncAtChunk0 = true; decide)
 
+/-! ## convergence of CONCURRENT rounds
+
+`C14_converges` lets the nodes run `Sync` one after the other, each node its destinations one after
+the other.  The code starts every node's `Sync` at the same time (one process per node, main.go) and,
+inside a node, one goroutine per destination in each phase, joined before the next phase
+(`Concurrent.lean`: `Pc`, `cstepT`, `crun`).  The following theorems are about EVERY schedule of those
+threads; the atomic steps are the labels of the transition system (one rpc at the receiver, one local
+transaction at the sender), so `C14_no_loss` / `C14_remove_only_after_confirm` hold in every state of
+every such run as well. -/
+
+/-- Repaired receiver: from ANY state reachable from `Init` (arbitrary interrupted earlier attempts),
+for EVERY interleaving `sched` of the main goroutines and per-destination goroutines of all started
+nodes: if every started node's `Sync` has returned at the end of the schedule (`finished`), then
+every one of them returned nil, and every record and shard file is exactly at its owner,
+byte-identical, nowhere else (`Placed`).  (That the program never blocks and always terminates:
+`C14_concurrent_never_blocks`.)
+Hypotheses: `SumOK`, chunk size > 0, truncating receiver; inside `ConvergesConc`: shard files
+non-empty, `Covers`, shard owners run, the walk lists every shard directory once (`fkeys.Nodup`).
+No fault label occurs in such a run by construction: a step of the program is a label of `Sync`
+itself, and a call that cannot be executed makes the node fail (`act`) — which the theorem excludes. -/
+theorem C14_converges_concurrent (cfg : Cfg N K) (hs : SumOK cfg) (hcs : 0 < cfg.cs) (htr : cfg.trunc0 = true) :
+    ConvergesConc cfg := by
+  intro ro fo nodes rkeys fkeys s0 s sched hne hfd hcov hnd h0 hr hfin
+  have hok : RoundOK cfg ro fo nodes rkeys fkeys := ⟨⟨hs, hcs, htr, hne, hfd⟩, hcov, hnd⟩
+  obtain ⟨hc, hreach⟩ := cinv_run hok s0 sched (cinit s) (cinv_init (inv_reachable hs h0.inv hr)) hr
+  obtain ⟨hdone, hp⟩ := cinv_finished hc hfin
+  have st := strict_reachable hs h0.inv h0.strict hreach
+  have hu : HoldersUp cfg _ := holdersUp_reachable h0.up hreach
+  refine ⟨⟨?_, ?_⟩, hdone⟩
+  · intro n k
+    by_cases e : n = cfg.owner k
+    · rw [if_pos e]
+      cases hro : ro k with
+      | none =>
+        cases h : (crun cfg rkeys fkeys sched (cinit s)).st.recs n k with
+        | none => rfl
+        | some v => have := st.r _ _ _ h; rw [hro] at this; cases this
+      | some v => rw [e]; exact hp.rown k v hro
+    · rw [if_neg e]
+      cases h : (crun cfg rkeys fkeys sched (cinit s)).st.recs n k with
+      | none => rfl
+      | some v => rw [← h]; exact hp.rnone n k (hu n k (Or.inl (by rw [h]; rfl))) e
+  · intro n k
+    by_cases e : n = cfg.fowner k
+    · rw [if_pos e]
+      cases hfo : fo k with
+      | none =>
+        cases h : (crun cfg rkeys fkeys sched (cinit s)).st.files n k with
+        | none => rfl
+        | some v => have := st.f n k (by simp [h]); rw [hfo] at this; cases this
+      | some c => rw [e]; exact hp.fown k c hfo
+    · rw [if_neg e]
+      cases h : (crun cfg rkeys fkeys sched (cinit s)).st.files n k with
+      | none => rfl
+      | some v => rw [← h]; exact hp.fnone n k (hu n k (Or.inr (by rw [h]; rfl))) e
+
+/-- the same for the configuration generated from the working tree (`CHUNKSIZE`, `truncAtChunk0`) -/
+theorem C14_converges_concurrent_repo (owner fowner : K → N) (sum : Content → Nat)
+    (hs : SumOK (repoCfg owner fowner sum)) : ConvergesConc (repoCfg owner fowner sum) :=
+  C14_converges_concurrent _ hs (by show 0 < Gen.C14.chunkSize; decide) (by show Gen.C14.truncAtChunk0 = true; decide)
+
+/-- "Every program runs to completion" is not an empty hypothesis.  (1) The concurrent program never
+blocks: in ANY state, a started node whose `Sync` has not returned has a thread that can take a step
+— a call that cannot be executed returns an error, nothing waits.  (2) In every state of every
+schedule from a reachable state the invariant `CInv` holds, in particular no started node has
+failed after its start (`NodeInv`: `failed n = false` at every control point after `boot`) — so the
+only way for a run to end is every node at `done`. -/
+theorem C14_concurrent_never_blocks (cfg : Cfg N K) (rkeys fkeys : List K) (c : CSt N K) (n : N)
+    (hun : cfg.up n = true) (hf : finished c n = false) :
+    ∃ t, (cstepT cfg rkeys fkeys t c).isSome = true :=
+  cstep_progress cfg rkeys fkeys c n hun hf
+
+/-- The concurrent program terminates under EVERY schedule, from ANY state: the number of effective
+steps of a schedule (`csteps`) is at most the measure `totalW` of the state it starts in (a natural
+number: per node, what its `Sync` still has to do), for any list `ups` that contains the nodes the
+schedule names.  No invariant is needed.  With `C14_concurrent_never_blocks`: every run can be
+continued until no thread can take a step, that takes at most `totalW` steps, and then every
+started node's `Sync` has returned — the hypothesis of `C14_converges_concurrent`
+(`C14_converges_concurrent_maximal`). -/
+theorem C14_concurrent_terminates (cfg : Cfg N K) (rkeys fkeys : List K) (ups : List N) (sched : List (Tid N))
+    (hin : ∀ t ∈ sched, t.node ∈ ups) (c : CSt N K) :
+    csteps cfg rkeys fkeys sched c ≤ totalW cfg rkeys fkeys ups c := by
+  have := csteps_le (cfg := cfg) (rkeys := rkeys) (fkeys := fkeys) ups sched hin c
+  omega
+
+/-- `C14_converges_concurrent` for MAXIMAL runs: if at the end of the schedule no thread of any node
+can take a step, then every started node's `Sync` returned nil and everything is `Placed`. -/
+theorem C14_converges_concurrent_maximal (cfg : Cfg N K) (hs : SumOK cfg) (hcs : 0 < cfg.cs) (htr : cfg.trunc0 = true)
+    (ro fo : K → Option Content) (nodes : List N) (rkeys fkeys : List K) (s0 s : St N K) (sched : List (Tid N))
+    (hne : ∀ k c, fo k = some c → c ≠ []) (hfd : ∀ k, (fo k).isSome → cfg.up (cfg.fowner k) = true)
+    (hcov : Covers cfg ro fo nodes rkeys fkeys) (hnd : fkeys.Nodup)
+    (h0 : Init cfg ro fo s0) (hr : Reachable cfg s0 s)
+    (hmax : ∀ t, cstepT cfg rkeys fkeys t (crun cfg rkeys fkeys sched (cinit s)) = none) :
+    Placed cfg ro fo (crun cfg rkeys fkeys sched (cinit s)).st ∧
+      ∀ n, cfg.up n = true → ((crun cfg rkeys fkeys sched (cinit s)).pc n).isDone = true ∧
+        (crun cfg rkeys fkeys sched (cinit s)).st.failed n = false := by
+  apply C14_converges_concurrent cfg hs hcs htr ro fo nodes rkeys fkeys s0 s sched hne hfd hcov hnd h0 hr
+  intro n hun
+  cases hf : finished (crun cfg rkeys fkeys sched (cinit s)) n with
+  | true => rfl
+  | false =>
+    obtain ⟨t, ht⟩ := cstep_progress cfg rkeys fkeys _ n hun hf
+    rw [hmax t] at ht
+    cases ht
+
+/-- `messages` (the list `C14_chunks` is about) is what the CONCURRENT program sends: under the hypotheses
+of `C14_converges_concurrent`, for every schedule that lets every `Sync` return and every shard `k`
+that a started node `n` holds (content `c`) without being its owner, the `(ChunkIndex, ChunkData)`
+pairs of node `n`'s `RPCSendShard` calls for `k` along the schedule (`cmsgs`: read off the steps of
+`n`'s goroutines, wherever the other threads' steps fall in between) are exactly `messages cs c` —
+also when an earlier attempt was interrupted in the middle of that file (it starts over at chunk 0). -/
+theorem C14_concurrent_sends_messages (cfg : Cfg N K) (hs : SumOK cfg) (hcs : 0 < cfg.cs) (htr : cfg.trunc0 = true)
+    (ro fo : K → Option Content) (nodes : List N) (rkeys fkeys : List K) (s0 s : St N K) (sched : List (Tid N))
+    (hne : ∀ k c, fo k = some c → c ≠ []) (hfd : ∀ k, (fo k).isSome → cfg.up (cfg.fowner k) = true)
+    (hcov : Covers cfg ro fo nodes rkeys fkeys) (hnd : fkeys.Nodup)
+    (h0 : Init cfg ro fo s0) (hr : Reachable cfg s0 s)
+    (hfin : ∀ n, cfg.up n = true → finished (crun cfg rkeys fkeys sched (cinit s)) n = true)
+    (n : N) (k : K) (c : Content) (hun : cfg.up n = true) (hno : n ≠ cfg.fowner k) (hc : s.files n k = some c) :
+    cmsgs cfg rkeys fkeys n k sched (cinit s) = messages cfg.cs c := by
+  have hok : RoundOK cfg ro fo nodes rkeys fkeys := ⟨⟨hs, hcs, htr, hne, hfd⟩, hcov, hnd⟩
+  rw [cmsgs_spec hok n k sched (cinit s) (cinv_init (inv_reachable hs h0.inv hr)) hfin]
+  unfold remaining
+  rw [if_pos ⟨hun, hno⟩]
+  show (match s.files n k with
+    | none => []
+    | some cnt => if Pc.isBoot (Pc.boot : Pc N K) = true then messages cfg.cs cnt else _) = _
+  rw [hc]
+  rfl
+
+/-- non-vacuity: shard 3 = `[4,5,6]` of node 1 in `cSched` (its chunks alternate with those of shards 2 and
+4 of node 0; an earlier attempt had left `[4,5]` at the owner) -/
+example : cmsgs cCfg cRkeys cFkeys 1 3 cSched (cinit cS1) = [(0, [4, 5]), (1, [6]), (2, [])] := by decide
+example : cmsgs cCfg cRkeys cFkeys 1 3 cSched (cinit cS1) = messages 2 [4, 5, 6] :=
+  C14_concurrent_sends_messages cCfg cSumOK (by decide) rfl cRo cFo [0, 1, 2] cRkeys cFkeys cS0 cS1 cSched
+    (by decide) (by decide) cCovers (by decide) cInit cReach cFinished 1 3 [4, 5, 6] rfl (by decide) (by decide)
+
+/-- After the synchronisation "all previously stored points remain readable through any node": a
+read that arrives at ANY started node `m` is routed to the routing owner of the key and answered
+from what the owner stores (`readRec` / `readFile`); after a concurrent round (hypotheses of
+`C14_converges_concurrent`) it returns the original of every record and every shard file. -/
+theorem C14_readable_through_any_node (cfg : Cfg N K) (hs : SumOK cfg) (hcs : 0 < cfg.cs) (htr : cfg.trunc0 = true)
+    (ro fo : K → Option Content) (nodes : List N) (rkeys fkeys : List K) (s0 s : St N K) (sched : List (Tid N))
+    (hne : ∀ k c, fo k = some c → c ≠ []) (hfd : ∀ k, (fo k).isSome → cfg.up (cfg.fowner k) = true)
+    (hcov : Covers cfg ro fo nodes rkeys fkeys) (hnd : fkeys.Nodup)
+    (h0 : Init cfg ro fo s0) (hr : Reachable cfg s0 s)
+    (hfin : ∀ n, cfg.up n = true → finished (crun cfg rkeys fkeys sched (cinit s)) n = true)
+    (m : N) (hm : cfg.up m = true) :
+    (∀ k, (ro k).isSome → readRec cfg (crun cfg rkeys fkeys sched (cinit s)).st m k = ro k) ∧
+    (∀ k, (fo k).isSome → readFile cfg (crun cfg rkeys fkeys sched (cinit s)).st m k = fo k) := by
+  obtain ⟨⟨pr, pf⟩, _⟩ := C14_converges_concurrent cfg hs hcs htr ro fo nodes rkeys fkeys s0 s sched hne hfd hcov hnd h0 hr hfin
+  constructor
+  · intro k hk
+    have huo : cfg.up (cfg.owner k) = true := hcov.up _ (hcov.dst k hk)
+    simp only [readRec, hm, huo, and_self, if_true]
+    split
+    · rename_i e; rw [pr m k, if_pos e.symm]
+    · rw [pr (cfg.owner k) k, if_pos rfl]
+  · intro k hk
+    have huo : cfg.up (cfg.fowner k) = true := hfd k hk
+    simp only [readFile, hm, huo, and_self, if_true]
+    split
+    · rename_i e; rw [pf m k, if_pos e.symm]
+    · rw [pf (cfg.fowner k) k, if_pos rfl]
+
+/-- the same after a sequential round (`C14_converges`) -/
+theorem C14_readable_after_round (cfg : Cfg N K) (hs : SumOK cfg) (hcs : 0 < cfg.cs) (htr : cfg.trunc0 = true)
+    (ro fo : K → Option Content) (nodes : List N) (rkeys fkeys : List K) (order : List N) (s0 s : St N K)
+    (hne : ∀ k c, fo k = some c → c ≠ []) (hfd : ∀ k, (fo k).isSome → cfg.up (cfg.fowner k) = true)
+    (hcov : Covers cfg ro fo nodes rkeys fkeys) (h0 : Init cfg ro fo s0) (hr : Reachable cfg s0 s)
+    (hord : ∀ n ∈ order, cfg.up n = true)
+    (hall : ∀ n k, (s.recs n k).isSome ∨ (s.files n k).isSome → n ∈ order)
+    (m : N) (hm : cfg.up m = true) :
+    (∀ k, (ro k).isSome → readRec cfg (round cfg nodes rkeys fkeys order s) m k = ro k) ∧
+    (∀ k, (fo k).isSome → readFile cfg (round cfg nodes rkeys fkeys order s) m k = fo k) := by
+  obtain ⟨⟨pr, pf⟩, _⟩ := C14_converges cfg hs hcs htr ro fo nodes rkeys fkeys order s0 s hne hfd hcov h0 hr hord hall
+  constructor
+  · intro k hk
+    have huo : cfg.up (cfg.owner k) = true := hcov.up _ (hcov.dst k hk)
+    simp only [readRec, hm, huo, and_self, if_true]
+    split
+    · rename_i e; rw [pr m k, if_pos e.symm]
+    · rw [pr (cfg.owner k) k, if_pos rfl]
+  · intro k hk
+    have huo : cfg.up (cfg.fowner k) = true := hfd k hk
+    simp only [readFile, hm, huo, and_self, if_true]
+    split
+    · rename_i e; rw [pf m k, if_pos e.symm]
+    · rw [pf (cfg.fowner k) k, if_pos rfl]
+
+/-! non-vacuity (`Witness.lean`): three nodes; nodes 0 and 1 send to node 2 at the same time, node 0 runs
+two goroutines in phase 2; earlier attempts left record 0 on two nodes and the left-over `[4,5]` of shard
+3 at node 2.  `cSched` interleaves everything; all hypotheses hold, every `Sync` returns. -/
+example : Placed cCfg cRo cFo (crun cCfg cRkeys cFkeys cSched (cinit cS1)).st :=
+  (C14_converges_concurrent cCfg cSumOK (by decide) rfl cRo cFo [0, 1, 2] cRkeys cFkeys cS0 cS1 cSched
+    (by decide) (by decide) cCovers (by decide) cInit cReach cFinished).1
+/-- before the round: record 0 on nodes 0 and 2, the owner's file of shard 3 is the left-over `[4,5]` -/
+example : cS1.recs 0 0 = some [9] ∧ cS1.recs 2 0 = some [9] ∧ cS1.files 2 3 = some [4, 5] ∧ cS1.files 1 3 = some [4, 5, 6] ∧
+    cS1.failed 0 = true ∧ cS1.failed 1 = true := by decide
+/-- in the middle of `cSched` three transfers are in flight at once — two of them into node 2 -/
+example :
+    let c := crun cCfg cRkeys cFkeys (cSched.take 19) (cinit cS1)
+    c.st.fph 0 2 = .sending 1 ∧ c.st.fph 1 3 = .sending 2 ∧ c.st.fph 0 4 = .sending 1 ∧
+      c.st.files 2 2 = some [1, 2] ∧ c.st.files 2 3 = some [4, 5, 6] ∧ c.st.files 1 4 = some [7] := by decide
+/-- reads: before the round a read of shard 3 through node 0 returns the left-over, afterwards the original -/
+example : readFile cCfg cS1 0 3 = some [4, 5] := by decide
+example : readFile cCfg (crun cCfg cRkeys cFkeys cSched (cinit cS1)).st 0 3 = some [4, 5, 6] :=
+  (C14_readable_through_any_node cCfg cSumOK (by decide) rfl cRo cFo [0, 1, 2] cRkeys cFkeys cS0 cS1 cSched
+    (by decide) (by decide) cCovers (by decide) cInit cReach cFinished 0 rfl).2 3 rfl
+/-- a node whose `Sync` has not returned can always take a step -/
+example : ∃ t, (cstepT cCfg cRkeys cFkeys t (crun cCfg cRkeys cFkeys (cSched.take 19) (cinit cS1))).isSome = true :=
+  C14_concurrent_never_blocks cCfg cRkeys cFkeys _ 0 rfl (by decide)
+
+/-- `cSched` has 28 effective steps (three of its entries name threads that have nothing to do); the
+measure of the start state bounds the effective steps of every schedule over these nodes, and at the
+end of `cSched` nothing can move any more -/
+example : csteps cCfg cRkeys cFkeys cSched (cinit cS1) = 28 ∧ totalW cCfg cRkeys cFkeys [0, 1, 2] (cinit cS1) = 90 := by
+  decide
+example : csteps cCfg cRkeys cFkeys cSched (cinit cS1) ≤ totalW cCfg cRkeys cFkeys [0, 1, 2] (cinit cS1) :=
+  C14_concurrent_terminates cCfg cRkeys cFkeys [0, 1, 2] cSched (by decide) (cinit cS1)
+
 /-! facts of the source the model relies on (T2), re-checked against the working tree on every run -/
 example : Gen.C14.truncEveryChunk = false := by decide
 example : Gen.C14.openFlagsAlways = ["O_APPEND", "O_CREATE", "O_WRONLY"] := by decide
@@ -218,6 +462,32 @@ theorem C14_epochs_converges (w0 w : World N K) (hs : SumOK w0.cfg) (hcs : 0 < w
   exact ⟨p, q, fun k hk => ⟨hk, fun n hn hno => p.rnone n k hn hno⟩,
     fun k hk => ⟨hk, fun n hn hno => p.fnone n k hn hno⟩, wreach_sync hr r1⟩
 
+/-- The same for CONCURRENT rounds: from every world of every history, for EVERY schedule of the started
+nodes' `Sync` programs and their goroutines (`crun`): if every started node's `Sync` has returned at
+the end of the schedule, none failed, the current version of every record and shard file is at its
+routing owner, byte-identical, and on no other started node; client writes are enabled again and the
+result continues the history.  Hypotheses as for `C14_epochs_converges` (in particular the list changes
+of the history are `Safe`, which includes `Safe.fc`: at most one started non-owner holds a given shard
+— with two such holders the chunks of two concurrent senders interleave in the owner's file, see the
+example below), plus `fkeys.Nodup`. -/
+theorem C14_epochs_converges_concurrent (w0 w : World N K) (hs : SumOK w0.cfg) (hcs : 0 < w0.cfg.cs)
+    (htr : w0.cfg.trunc0 = true) (hne : ∀ k c, w0.fo k = some c → c ≠ []) (h0 : WInit w0) (hr : WReach w0 w)
+    (nodes : List N) (rkeys fkeys : List K) (sched : List (Tid N))
+    (hcov : Covers w.cfg w.ro w.fo nodes rkeys fkeys) (hnd : fkeys.Nodup)
+    (hfd : ∀ k, (w.fo k).isSome → w.cfg.up (w.cfg.fowner k) = true)
+    (hfin : ∀ n, w.cfg.up n = true → finished (crun w.cfg rkeys fkeys sched (cinit w.st)) n = true) :
+    let w' : World N K := { w with st := (crun w.cfg rkeys fkeys sched (cinit w.st)).st }
+    PlacedW w.cfg w.ro w.fo w'.st ∧ (∀ n, w.cfg.up n = true → w'.st.failed n = false) ∧
+      (∀ k, w.cfg.up (w.cfg.owner k) = true → QuietR w' k) ∧
+      (∀ k, w.cfg.up (w.cfg.fowner k) = true → QuietF w' k) ∧ WReach w0 w' := by
+  obtain ⟨i, c1, c2, c3⟩ := winv_reach hs h0 hr
+  have hg : Good w.cfg w.fo :=
+    ⟨sumOK_congr c3 hs, by rw [c1]; exact hcs, by rw [c2]; exact htr, wreach_nonempty hne hr, hfd⟩
+  obtain ⟨hc, hreach⟩ := cinv_run ⟨hg, hcov, hnd⟩ w.st sched (cinit w.st) (cinv_init i) .init
+  obtain ⟨hdone, p⟩ := cinv_finished hc hfin
+  exact ⟨p, fun n hn => (hdone n hn).2, fun k hk => ⟨hk, fun n hn hno => p.rnone n k hn hno⟩,
+    fun k hk => ⟨hk, fun n hn hno => p.fnone n k hn hno⟩, wreach_sync hr hreach⟩
+
 /-- Which changes of the list are `Safe`: in every world of every history it suffices that running
 nodes keep running, that a node which comes back holds out-of-date copies only of keys the new
 routing assigns to it (it received them under the same list before the change was rolled back:
@@ -274,6 +544,28 @@ record) is the owner, node 2 ships `[1]` as if it were current and the record `[
 example : safeB (eW 7) (fun _ => 0) (fun _ => 0) (fun _ => true) [0, 1, 2] [0] [1] = false := by decide
 example : (round eWbad.cfg [0, 1, 2] [0] [1] [2, 0, 1] eWbad.st).recs 0 0 = some [1] ∧
     (round eWbad.cfg [0, 1, 2] [0] [1] [2, 0, 1] eWbad.st).recs 2 0 = none ∧ eWbad.ro 0 = some [1, 9] := by decide
+
+/-- non-vacuity of `C14_epochs_converges_concurrent`: the history of `Witness.lean` (older copy `[1]` of
+record 0 on node 2, current `[1,9]` on node 0, owner node 2), all three nodes synchronising at once -/
+example : (crun (eW 8).cfg [0] [1] eSched (cinit (eW 8).st)).st.recs 2 0 = some [1, 9] :=
+  (C14_epochs_converges_concurrent eW0 (eW 8) eSumOK (by decide) rfl (by decide) eInit eReach [0, 1, 2] [0] [1] eSched
+    eCovers (by decide) (by decide) eFinished).1.rown 0 [1, 9] (by decide)
+
+/-- `Safe.fc` cannot be dropped for concurrent rounds: two started non-owners (nodes 0 and 1) hold the
+same shard `[1,2,3]` (chunk size 2; possible only when the list changes AGAIN before an interrupted
+move was completed — outside the property's quantifier).  Sequentially both transfers succeed
+(`C14_converges` does not need the restriction on such a state); when their chunks interleave in the
+owner's file both checksum comparisons fail, both `Sync`s return an error and nothing has moved — no
+loss, but no convergence under that schedule either. -/
+example : (crun dCfg [] [0] dSchedSeq (cinit dS)).st.files 2 0 = some [1, 2, 3] ∧
+    (crun dCfg [] [0] dSchedSeq (cinit dS)).st.files 0 0 = none ∧ (crun dCfg [] [0] dSchedSeq (cinit dS)).st.files 1 0 = none ∧
+    (crun dCfg [] [0] dSchedSeq (cinit dS)).st.failed 0 = false ∧ (crun dCfg [] [0] dSchedSeq (cinit dS)).st.failed 1 = false := by
+  decide
+example : (crun dCfg [] [0] dSchedMix (cinit dS)).st.files 2 0 = some [1, 2, 3, 3] ∧
+    (crun dCfg [] [0] dSchedMix (cinit dS)).st.failed 0 = true ∧ (crun dCfg [] [0] dSchedMix (cinit dS)).st.failed 1 = true ∧
+    (crun dCfg [] [0] dSchedMix (cinit dS)).st.files 0 0 = some [1, 2, 3] ∧
+    (crun dCfg [] [0] dSchedMix (cinit dS)).st.files 1 0 = some [1, 2, 3] := by
+  decide
 
 /-! ## the pinned receiver (no truncation): convergence is false -/
 
